@@ -858,7 +858,7 @@ func genOne(g *hx.Gen) {
 }
 
 func gen(g *hx.Gen) {
-	n := g.Count(1000, 150000)
+	n := g.Count(1000, 60000)
 	for i := 0; i < n; i++ {
 		genOne(g)
 	}
